@@ -1423,7 +1423,10 @@ func (s *Server) processUnsubscribe(cl *Client, pk packets.Packet) error {
 		ack.Properties.ReasonString = code.Reason
 	}
 
-	s.hooks.OnUnsubscribed(cl, pk)
+	if code == packets.CodeSuccess { // with a packet identifier in use nothing was unsubscribed
+		s.hooks.OnUnsubscribed(cl, pk)
+	}
+
 	return cl.WritePacket(ack)
 }
 
